@@ -150,6 +150,21 @@ func drvStd(pairs bool) [][]Action {
 		for _, p := range paths {
 			st := &symtab{}
 			out = append(out, []Action{newAct("", ""), {A: "Add", Tree: varQ(p, st.sym(p))}, {A: "Render"}})
+			// the same package under an explicit alias: its last path element, its real name, some other name - the
+			// qualifier must then be that alias and the import must carry it (or provide it anyway)
+			last := p
+			if i := strings.LastIndex(p, "/"); i >= 0 {
+				last = p[i+1:]
+			}
+			variants := []string{last, std[p], "aliased"}
+			for k, al := range variants {
+				if !LegalName(al) || al == "" || (k == 1 && al == last) {
+					continue
+				}
+				st2 := &symtab{}
+				pfx := []string{"", "", "pkg"}[(len(p)+k)%3]
+				out = append(out, []Action{newAct("", pfx), {A: "ImportAlias", P: p, N: al}, {A: "Add", Tree: varQ(p, st2.sym(p))}, {A: "Render"}})
+			}
 		}
 		return out
 	}
